@@ -10,13 +10,25 @@
  *              bounded number of polls; walk1 = walk2 (T1's update not visible during the hold);
  *              final content = walk1 + T1's element.
  *
+ * mode=nested  (nested locking under observation): T0: lock(); one locking public call (tree:
+ *              putstr + find_nearest, list/vector: addlast, queue: pushstr, hashtbl/listtbl: putstr);
+ *              walk1 (getnext calls, themselves locking except for the tree); start T1 and wait until it
+ *              has failed <polls> trylocks -- it must NOT get in; more (copying get) calls; walk2;
+ *              unlock(); T1 must get in now; probe.  `nested_delta` = change of T0's REAL lock depth
+ *              (wrapped pthread calls) across the nested public calls: must be 0.
+ * mode=contend (short contention): T0 holds the lock only until T1's first <polls> trylocks have
+ *              failed (a few ms, far below the time-out), unlocks; T1 completes; T1's real depth must be
+ *              0 and a THIRD thread must get in.
+ *
  * Nothing is slept by a fixed amount: the hold ends on the observed event (or a cap), so the scenario
  * does not depend on the speed of usleep(1).  One scenario per input line:
- *     hold kind=<vector|list|queue|hashtbl|listtbl|treetbl> init=<n> rounds=<r> [cap_ms=<ms>]
+ *     hold kind=<vector|list|queue|hashtbl|listtbl|treetbl> init=<n> [mode=long|nested|contend] rounds=<r>
+ *          [polls=<n>] [cap_ms=<ms>]
  * result:
  *     forced=<n> polls=<n> hold_ms=<ms> t1_done_in_hold=<0|1> walk1=<..> walk2=<..> t0_depth=<d>
  *     t1_completed=<0|1> t1_ret=<r> t1_depth=<d> probe=<ok|blocked> final=<..>
- * Linked with -Wl,--wrap=pthread_mutex_trylock,--wrap=pthread_mutex_unlock,--wrap=pthread_mutex_lock.
+ * Linked with -Wl,--wrap=pthread_mutex_trylock,--wrap=pthread_mutex_unlock,--wrap=pthread_mutex_lock,
+ * --wrap=pthread_mutex_timedlock.
  */
 #include "common.h"
 #include <pthread.h>
@@ -26,6 +38,7 @@
 int __real_pthread_mutex_trylock(pthread_mutex_t *m);
 int __real_pthread_mutex_lock(pthread_mutex_t *m);
 int __real_pthread_mutex_unlock(pthread_mutex_t *m);
+int __real_pthread_mutex_timedlock(pthread_mutex_t *m, const struct timespec *ts);
 
 static __thread int tid = -1;                 /* 0 = T0 (main), 1 = T1, 2 = probe */
 static volatile long ok_lock[3], ok_unlock[3], fail_try[3], fail_unlock[3];
@@ -43,6 +56,11 @@ int __wrap_pthread_mutex_trylock(pthread_mutex_t *m) {
 int __wrap_pthread_mutex_lock(pthread_mutex_t *m) {
     int r = __real_pthread_mutex_lock(m);
     if (tid >= 0 && r == 0) ok_lock[tid]++;
+    return r;
+}
+int __wrap_pthread_mutex_timedlock(pthread_mutex_t *m, const struct timespec *ts) {
+    int r = __real_pthread_mutex_timedlock(m, ts);
+    if (tid >= 0) { if (r == 0) ok_lock[tid]++; else fail_try[tid]++; }
     return r;
 }
 int __wrap_pthread_mutex_unlock(pthread_mutex_t *m) {
@@ -108,6 +126,35 @@ static void walk(char *out, size_t cap) {
     }
 }
 
+static long depth0(void) { return ok_lock[0] - ok_unlock[0]; }
+static long nested_delta;            /* largest |change of T0's real depth| across one nested public call */
+#define NESTED(call) do { long _b = depth0(); call; long _d = depth0() - _b; if (_d < 0) _d = -_d; if (_d > nested_delta) nested_delta = _d; } while (0)
+
+/* a locking (mutating) public call made by the lock holder */
+static void nested_first(void) {
+    if (!strcmp(kind, "vector")) { int32_t x = 555; NESTED(((qvector_t *) cont)->addlast(cont, &x)); }
+    else if (!strcmp(kind, "list")) NESTED(((qlist_t *) cont)->addlast(cont, "v555", 5));
+    else if (!strcmp(kind, "queue")) NESTED(((qqueue_t *) cont)->pushstr(cont, "v555"));
+    else if (!strcmp(kind, "hashtbl")) NESTED(((qhashtbl_t *) cont)->putstr(cont, "k55", "v555"));
+    else if (!strcmp(kind, "listtbl")) NESTED(((qlisttbl_t *) cont)->putstr(cont, "k55", "v555"));
+    else {
+        qtreetbl_t *t = cont;
+        NESTED(t->putstr(t, "k55", "v555"));
+        qtreetbl_obj_t o; NESTED(o = t->find_nearest(t, "k00", 4, false)); (void) o;
+    }
+}
+/* more locking calls that do not change the content (copying gets) */
+static void nested_more(void) {
+    void *p = NULL;
+    if (!strcmp(kind, "vector")) NESTED(p = ((qvector_t *) cont)->getat(cont, 0, true));
+    else if (!strcmp(kind, "list")) NESTED(p = ((qlist_t *) cont)->getat(cont, 0, NULL, true));
+    else if (!strcmp(kind, "queue")) NESTED(p = ((qqueue_t *) cont)->getstr(cont));
+    else if (!strcmp(kind, "hashtbl")) NESTED(p = ((qhashtbl_t *) cont)->getstr(cont, "k55", true));
+    else if (!strcmp(kind, "listtbl")) NESTED(p = ((qlisttbl_t *) cont)->getstr(cont, "k55", true));
+    else { qtreetbl_t *t = cont; NESTED(p = t->getstr(t, "k55", true)); qtreetbl_obj_t o; NESTED(o = t->find_nearest(t, "k55", 4, false)); (void) o; }
+    free(p);
+}
+
 static void *t1_main(void *arg) {
     (void) arg;
     tid = 1;
@@ -134,7 +181,8 @@ int main(void) {
     char *line = NULL; size_t cap = 0;
     if (getline(&line, &cap, stdin) <= 0) return 2;
     char *w[MAXW]; int nw = split_words(line, w);
-    int init = 2, rounds = 1, cap_ms = 6000;
+    int init = 2, rounds = 1, cap_ms = 6000, polls_target = 50;
+    const char *mode = "long";
     kind = "list";
     for (int i = 1; i < nw; i++) {
         char *eq = strchr(w[i], '='); if (!eq) continue;
@@ -143,6 +191,8 @@ int main(void) {
         else if (!strcmp(w[i], "init")) init = atoi(v);
         else if (!strcmp(w[i], "rounds")) rounds = atoi(v);
         else if (!strcmp(w[i], "cap_ms")) cap_ms = atoi(v);
+        else if (!strcmp(w[i], "mode")) mode = v;
+        else if (!strcmp(w[i], "polls")) polls_target = atoi(v);
     }
     char kb[16], vb[16];
     if (!strcmp(kind, "vector")) { qvector_t *v = qvector(0, 4, QVECTOR_THREADSAFE | QVECTOR_RESIZE_DOUBLE); for (int i = 0; i < init; i++) { int32_t x = 100 + i; v->addlast(v, &x); } cont = v; }
@@ -154,16 +204,25 @@ int main(void) {
     else { printf("bad-kind\n"); return 0; }
 
     static char walk1[4096], walk2[4096], walk3[4096];
+    int nested = !strcmp(mode, "nested"), contend = !strcmp(mode, "contend");
     tid = 0;
     c_lock();
-    walk(walk1, sizeof(walk1));
+    if (nested) nested_first();
+    if (nested) { long b = depth0(); walk(walk1, sizeof(walk1)); long d = depth0() - b; if (d < 0) d = -d; if (d > nested_delta) nested_delta = d; }
+    else walk(walk1, sizeof(walk1));
     pthread_t th1, thp;
     pthread_create(&th1, NULL, t1_main, NULL);
     double t0 = now_ms();
-    /* hold until the waiter has made <rounds> forced unlock attempts (or finished, or the cap) ... */
-    while (fail_unlock[1] < rounds && !t1_done && now_ms() - t0 < (double) cap_ms * rounds) nap_ms(2);
-    /* ... and give it time to act on the last one */
-    for (int i = 0; i < 40 && !t1_done; i++) nap_ms(2);
+    if (nested || contend) {
+        /* hold only until the other thread has demonstrably failed to get in <polls> times */
+        while (fail_try[1] < polls_target && !t1_done && now_ms() - t0 < 400) nap_ms(1);
+        if (nested) nested_more();
+    } else {
+        /* hold until the waiter has made <rounds> forced unlock attempts (or finished, or the cap) ... */
+        while (fail_unlock[1] < rounds && !t1_done && now_ms() - t0 < (double) cap_ms * rounds) nap_ms(2);
+        /* ... and give it time to act on the last one */
+        for (int i = 0; i < 40 && !t1_done; i++) nap_ms(2);
+    }
     int done_in_hold = t1_done;
     long forced = fail_unlock[1], polls = fail_try[1];
     double hold = now_ms() - t0;
@@ -177,9 +236,12 @@ int main(void) {
     long t1_depth = ok_lock[1] - ok_unlock[1];
     pthread_create(&thp, NULL, probe_main, NULL);
     pthread_join(thp, NULL);
-    walk(walk3, sizeof(walk3));      /* by T0: it can re-enter even if it still owns the mutex */
-    printf("forced=%ld polls=%ld hold_ms=%.0f t1_done_in_hold=%d walk1=%s walk2=%s t0_depth=%ld t1_completed=%d t1_ret=%s "
-           "t1_depth=%ld probe=%s final=%s\n", forced, polls, hold, done_in_hold, walk1, walk2, t0_depth, completed,
+    /* final content by T0 (it can re-enter even if it still owns the mutex); not when somebody else is
+     * known to sit on the mutex for ever: the walk's own lock() would never return */
+    if (probe_blocked && t0_depth == 0) snprintf(walk3, sizeof(walk3), "-");
+    else walk(walk3, sizeof(walk3));
+    printf("mode=%s nested_delta=%ld forced=%ld polls=%ld hold_ms=%.0f t1_done_in_hold=%d walk1=%s walk2=%s t0_depth=%ld t1_completed=%d t1_ret=%s "
+           "t1_depth=%ld probe=%s final=%s\n", mode, nested_delta, forced, polls, hold, done_in_hold, walk1, walk2, t0_depth, completed,
            completed ? t1_ret : "-", t1_depth, probe_blocked ? "blocked" : "ok", walk3);
     fflush(stdout);
     _exit(0);                        /* T1 may be stuck for ever: do not join, do not run destructors */
